@@ -762,7 +762,8 @@ def _r5_persistence(run):
     ui = "toasty.pyramid.PyramidIO.update_image"
     if ui in project.funcs:
         from sa.cfg import CFG
-        uf = project.fn(ui)
+        from . import common as _common
+        uf = _common.as_generator_cm(project, project.fn(ui))        # (a context-manager class is read as the generator it replaces)
         run.note_func(uf)
         cfg = CFG(uf.node)
         yields = [n for n in cfg.nodes for e in cfg.expr_of(n) for x in ast.walk(e) if isinstance(x, ast.Yield)]
